@@ -36,6 +36,63 @@ def token_arm(b, bi):
     return None
 
 
+def r6(P, C):
+    def cstr(body, bi, t):
+        return "%s(%s)" % (t["nf"], ", ".join(term_str(x) for x in body.call_args(bi)))
+    try:
+        a = P.body("PeerManager::accept_invite::{closure#0}")
+        C.saw(a)
+        effects = []
+        for bi, t in a.calls_to(r"(system_entities::Invite::insert|Vec::push|HashMap::insert|HashMap::entry)$"):
+            s = cstr(a, bi, t)
+            if t["nf"].endswith("Invite::insert") or "allowed_token" in s or "self.invites" in s or "TokenType::Invite" in s:
+                effects.append((bi, t, s))
+        C.floor("R6", "effects of accepting an invitation (stored row, token entry, token type, invitation list)", len(effects), 4)
+        for n, (bi, t, s) in enumerate(effects):
+            ok = False
+            for sw, vals, term in a.guards(bi):
+                atom, truth = mir.cond_atoms(term, vals)
+                u = mir.strip(atom)
+                if u[0] == "call" and re.search(r"::eq$", u[1]) and truth is True:
+                    ops = sorted(field_path(x) for x in u[2])
+                    if len(ops) == 2 and ops[0].endswith("inv.application") and ops[1].endswith("self.app_key"):
+                        ok = True
+            C.ob("R6", "accept:%s#%d" % (t["nf"].split("::")[-1], n), ok, a.loc(bi), "%s only when inv.application == self.app_key" % s[:80])
+        eqs = [bi for bi, t in a.calls_to(r"::eq$") if "application" in cstr(a, bi, t)]
+        refused = False
+        for blk in mir.return_assignments(a)["Err"]:
+            txt = " ".join(term_str(a.def_term(blk, si, st["rv"], 0)) for si, st in enumerate(a.blocks[blk]["s"]) if st["lhs"] == [0])
+            if "InvalidInvite" not in txt:
+                continue
+            for sw, vals, term in a.guards(blk):
+                atom, truth = mir.cond_atoms(term, vals)
+                if "application" in term_str(atom) and truth is False:
+                    refused = True
+        C.ob("R6", "other-application-refused", refused, a.loc(eqs[0]) if eqs else a.loc(), "the unequal edge returns Err(InvalidInvite)")
+    except mir.MissingAnchor as e:
+        C.anchor_missing("R6", "PeerManager::accept_invite", e)
+    try:
+        h = P.body("system_entities::Invite::hash_val")
+        C.saw(h)
+        ups = [field_path(h.call_args(bi)[1]) for bi, t in h.calls_to(r"Hasher::update$")]
+        C.ob("R6", "digest-covers-application", any("application" in u for u in ups) and any("invite_id" in u for u in ups), h.loc(),
+             "the digest signed by the inviter covers invite_id and application: %s" % ups)
+        cr = P.body("PeerManager::create_invite::{closure#0}")
+        C.saw(cr)
+        ic = cr.calls_to(r"system_entities::Invite::create$")
+        ok = len(ic) == 1 and "self.app_key" in term_str(cr.call_args(ic[0][0])[2])
+        C.ob("R6", "created-for-own-application", ok, cr.loc(ic[0][0]) if ic else cr.loc(), "Invite::create(.., application = self.app_key, ..)")
+        ci = P.body("system_entities::Invite::create::{closure#0}")
+        C.saw(ci)
+        hv = ci.calls_to(r"Invite::hash_val$")
+        sg = ci.calls_to(r"GraphDatabaseService::sign$")
+        ok = (len(hv) == 1 and len(sg) == 1 and "application" in term_str(ci.call_args(hv[0][0])[1])
+              and "hash_val" in term_str(ci.call_args(sg[0][0], expand_vars=True)[1]))
+        C.ob("R6", "signed-digest-names-application", ok, ci.loc(), "the invitation signature is over hash_val(invite_id, application)")
+    except mir.MissingAnchor as e:
+        C.anchor_missing("R6", "Invite::hash_val / create", e)
+
+
 def run(P, C, tier):
     C.explanation = (
         "Static decision of the handshake ordering on the coroutine CFG of initialise_connection and of its caller: the "
@@ -49,6 +106,8 @@ def run(P, C, tier):
     C.rule("R3", "in LocalPeerService::start, Ok(false) and Err of initialise_connection reach disconnect and return before the event loop")
     C.rule("R4", "the challenge sent to the peer is the one verified; the identity answer is verified under the key of the presented peer row")
     C.rule("R5", "an invitation is consumed once: invite_accepted tests that the invitation is still present before its effects, deletes it and removes its token")
+    C.rule("R6", "an invitation is accepted only for the application it names: storing it and arming its meeting token lie on the equal edge of inv.application == self.app_key; the signed invitation digest covers the application name; created invitations name this instance's application")
+    r6(P, C)
     try:
         b = P.body(INIT)
     except mir.MissingAnchor as e:
